@@ -85,6 +85,39 @@ def unbalanced_cut(rng, text, main_url):
     return res
 
 
+def dangling_cut(rng, text, main_url):
+    """A section that is never closed, opened inside a fragment: the closing line of one section is
+    dropped from the text, and a run of lines that starts at (or before) its opening line and ends
+    inside it goes to a fragment.  -> (the text without the closing line, resources) or None"""
+    lines = text.split("\n")
+    if lines and lines[-1] == "":
+        lines.pop()
+    dep = gen.line_depths(lines)
+    opens = [i for i, l in enumerate(lines) if l.strip().startswith("<") and not l.strip().startswith("</")
+             and not l.strip().endswith("/>") and i + 1 < len(dep) and dep[i + 1] == dep[i] + 1]
+    rng.shuffle(opens)
+    for o in opens:
+        c = next((j for j in range(o + 1, len(lines)) if dep[j + 1] == dep[o] and lines[j].strip().startswith("</")), None)
+        if c is None:
+            continue
+        # fragment = lines[s:k] with s <= o < k <= c, starting at the depth of the opening line
+        starts = [s for s in range(o, -1, -1) if dep[s] == dep[o] and min(dep[s:o + 1]) >= dep[o]]
+        s_ = rng.choice(starts[:3])
+        k = rng.randint(o + 1, c)
+        if min(dep[o + 1:k + 1]) <= dep[o]:
+            continue
+        frag = lines[s_:k]
+        if any(l.strip().startswith("%include") for l in frag):
+            continue
+        name = rng.choice(["dangling.conf", "sub/dangling.conf"])
+        rest = lines[k:c] + lines[c + 1:]
+        whole = lines[:c] + lines[c + 1:]
+        resources = {main_url: "".join(l + "\n" for l in lines[:s_] + ["%%include %s" % name] + rest),
+                     model.url_join(main_url, name): "".join(l + "\n" for l in frag)}
+        return "".join(l + "\n" for l in whole), resources
+    return None
+
+
 def double_include(rng, text, main_url):
     """The same fragment included twice: a balanced range is duplicated in the text, and both
     copies are replaced by %include of ONE resource.  -> (text with the range twice, resources)"""
@@ -118,7 +151,7 @@ def compare(schema, text, resources, main=MAIN, expect_reject=False):
     """-> (inline outcome, split outcome, [(sig, detail)])"""
     inline = outcome(loadcheck.real_load(schema, text, url=main))
     _N["n"] += 1
-    real_res, real_main, root = loadcheck.materialise(resources, main, reuse=_N["n"] % 2 == 0)
+    real_res, real_main, root = loadcheck.materialise(resources, main, reuse=_N["n"] % 2 == 0, odd_dir=_N["n"] % 3 == 0)
     if _N["n"] % 5 == 0:
         # the name the application uses is a symbolic link; the file is stored in another directory
         import os
@@ -136,6 +169,10 @@ def compare(schema, text, resources, main=MAIN, expect_reject=False):
     out = []
     if split[0] == "internal":
         out.append(("internal:%s:%s" % (split[1], split[2]), "split load raised %s" % split[1]))
+    elif expect_reject == "always":
+        # the fragment opens a section and ends inside it: refused whatever the rest looks like
+        if split[0] == "ok":
+            out.append(("fragment-that-leaves-a-section-open-accepted", "inline outcome: %s" % inline[0]))
     elif expect_reject:
         if inline[0] == "ok" and split[0] == "ok":
             out.append(("unbalanced-fragment-accepted", "the fragment closes/leaves open a section of its includer"))
@@ -235,6 +272,16 @@ def run_shard(spec):
                 res.nontrivial(key=[xml, sorted(dres.items())])
                 for sig, d in fl:
                     res.fail(sig, {"schema": ast, "text": twice_text, "resources": dres, "main": MAIN}, d)
+            dc = dangling_cut(rng, text, MAIN) if "%include" not in text else None
+            if dc:
+                res.evaluations += 1
+                counters["fragment-leaves-a-section-open-that-nobody-closes"] += 1
+                whole, dres = dc
+                i3, s3, fl = compare(schema, whole, dres, expect_reject="always")
+                counters["dangling:" + i3[0]] += 1
+                res.nontrivial(key=[xml, sorted(dres.items())])
+                for sig, d in fl:
+                    res.fail(sig, {"schema": ast, "text": whole, "resources": dres, "main": MAIN, "unbalanced": "always"}, d)
             if inline[0] == "ok":
                 ub = unbalanced_cut(rng, text, MAIN)
                 if ub:
@@ -251,7 +298,8 @@ def run_shard(spec):
 
 def check_coverage(tier, c):
     problems = []
-    for k in ("inline:ok", "inline:reject", "cut-inside-section", "fragment-with-define", "unbalanced-cuts"):
+    for k in ("inline:ok", "inline:reject", "cut-inside-section", "fragment-with-define", "unbalanced-cuts",
+              "fragment-leaves-a-section-open-that-nobody-closes"):
         if c.get(k, 0) < 50:
             problems.append("class %s has only %d cases" % (k, c.get(k, 0)))
     return problems
